@@ -253,6 +253,10 @@ func (af *AdaptationField) stuffAF() {
 // delta is how much shifting needs to be done.
 // this function must be called before the field is marked as present.
 func (af *AdaptationField) resizeAF(start int, delta int) error {
+	if start > af.stuffingStart() || af.stuffingStart() > PacketSize {
+		// the length bytes inside the field point past the end of the packet
+		return gots.ErrInvalidPacketLength
+	}
 	if delta > 0 { // shifting for growing
 		end := af.stuffingStart()
 		startRight := start + delta
@@ -268,6 +272,9 @@ func (af *AdaptationField) resizeAF(start int, delta int) error {
 	if delta < 0 {
 		startRight := start - delta
 		endRight := af.stuffingStart()
+		if startRight > endRight {
+			return gots.ErrInvalidPacketLength
+		}
 		end := endRight + delta
 		src := []byte(af[startRight:endRight])
 		dst := []byte(af[start:end])
@@ -544,6 +551,10 @@ func (af *AdaptationField) TransportPrivateData() ([]byte, error) {
 	if !hasTPD {
 		return nil, gots.ErrNoPrivateTransportData
 	}
+	if af.adaptationExtensionStart() > PacketSize {
+		// transport_private_data_length points past the end of the packet
+		return nil, gots.ErrInvalidPacketLength
+	}
 	return af[af.transportPrivateDataStart():af.adaptationExtensionStart()], nil
 }
 
@@ -611,6 +622,10 @@ func (af *AdaptationField) AdaptationFieldExtension() ([]byte, error) {
 	}
 	if !hasAFC {
 		return nil, gots.ErrNoAdaptationFieldExtension
+	}
+	if af.adaptationExtensionStart() > PacketSize || af.stuffingStart() > PacketSize {
+		// a length byte inside the field points past the end of the packet
+		return nil, gots.ErrInvalidPacketLength
 	}
 	return af[af.adaptationExtensionStart():af.stuffingStart()], nil
 }
